@@ -340,8 +340,8 @@ impl Property for C16 {
     }
     fn config(&self, tier: Tier) -> PropConfig {
         match tier {
-            Tier::Quick => PropConfig { cases: 40_000, max_tape: 200, shards: 8 },
-            Tier::Thorough => PropConfig { cases: 4_000_000, max_tape: 200, shards: 16 },
+            Tier::Quick => PropConfig { cases: 250000, max_tape: 200, shards: 12 },
+            Tier::Thorough => PropConfig { cases: 4000000, max_tape: 200, shards: 16 },
         }
     }
     fn prelude(&self, _reg: &Registry, shard: u32, nshards: u32, _tier: Tier, st: &mut Stats) -> CaseResult {
